@@ -274,6 +274,14 @@ class Exec:
     def binop(self, op, a, b, st, node=None):
         a, b = lift(a), lift(b)
         seqlike = lambda x: isinstance(x, (PyTup, PyIte, PyCat)) or (isinstance(x, V) and (x.ty is STR or isinstance(x.ty, (SeqT, ListT, DictT))))
+        if isinstance(op, ast.Add) and isinstance(a, V) and isinstance(b, V) and (a.ty is STR or b.ty is STR) and a.ty is not b.ty:
+            # str + <union with a str alternative>: python raises TypeError unless the value is a str
+            other, is_left = (a, True) if b.ty is STR else (b, False)
+            if isinstance(other.ty, UnionT) and other.ty.tag_of_type(STR) is not None:
+                tag = other.ty.tag_of_type(STR)
+                self.ctx.oblige("safety", st, other.ty.is_(other.t, tag), getattr(node, "lineno", 0), "str concatenation with a non-str value")
+                proj = V(STR, other.ty.val(other.t, tag))
+                a, b = (proj, b) if is_left else (a, proj)
         if isinstance(op, ast.Add) and seqlike(a) and seqlike(b):
             return concat(a, b)
         if isinstance(op, ast.Mod) and isinstance(a, V) and a.ty is STR:
